@@ -85,6 +85,7 @@ class Program:
         self.src_hash = ''
         self.traits = {}         # trait name -> set(methods declared in repo)
         self.ctor_fns = {}
+        self.defmods = {}
 
     # ------------------------------------------------------------------ MIR dump
     def dump_mir(self, scratch, crates=('mpd_protocol', 'mpd_client')):
@@ -119,6 +120,7 @@ class Program:
             for name, lst in dups.items():
                 self.multi.setdefault(name, []).extend(lst)
         self.read_sources()
+        self.finish_sources()
         self.index()
 
     # ------------------------------------------------------------------ sources
@@ -146,11 +148,21 @@ class Program:
                     if mm:
                         variants.append(mm.group(1))
                 self.enums.setdefault(m.group(1), []).append(variants)
+            modname = os.path.basename(os.path.dirname(p)) if p.endswith('mod.rs') else os.path.basename(p)[:-3]
+            for m in re.finditer(r'\b(?:struct|enum)\s+(\w+)', src):
+                self.defmods.setdefault(m.group(1), set()).add(modname)
             for m in re.finditer(r'\bstruct\s+(\w+)', src):
                 self.structs.add(m.group(1))
             for m in re.finditer(r'\btrait\s+(\w+)[^{;]*\{', src):
                 k = match_close(src, m.end() - 1)
                 self.traits.setdefault(m.group(1), set()).update(re.findall(r'\bfn\s+(\w+)', src[m.end():k]))
+
+    def finish_sources(self):
+        import rtypes
+        rtypes.AMBIG.clear()
+        for n, mods in self.defmods.items():
+            if len(mods) > 1:
+                rtypes.AMBIG[n] = set(mods)
 
     def span_text(self, loc):
         """'FILE:L:C: L2:C2' -> source text of the span"""
@@ -229,6 +241,12 @@ class Program:
                     self_pat = self.self_from_header(f)
                     if params == ('$macro',):
                         e.params = tuple(sorted(set(re.findall(r'\b[A-Z]\b', rtypes_str(self_pat)))))
+                if self_pat is not None and self_pat[0] == 'path' and '::' not in self_pat[1]:
+                    import rtypes
+                    if self_pat[1] in rtypes.AMBIG:
+                        mod = name.split('::<impl at')[0].split('::')[-1]
+                        if mod:
+                            self_pat = ('path', mod + '::' + self_pat[1], self_pat[2])
                 e.self_pat = self_pat
                 e.fn_params = self.fn_generics(self.text_after(loc), method, f)
                 self.impl_methods.setdefault((trait, method), []).append(e)
